@@ -13,10 +13,10 @@ for ID in "$@"; do
   git checkout -q -- . ; rm -f crates/core/tests/seeded_demo.rs
   cp $D/seeded_demo.rs crates/core/tests/seeded_demo.rs
   # without the change: demo passes
-  if cargo test -p rustic_core --offline --test seeded_demo -- --test-threads 2 >>$L 2>&1; then echo "demo_passes_without_change=yes" >>$L; else echo "demo_passes_without_change=NO" >>$L; fi
+  if cargo test -p rustic_core --offline ${SEED_FEATURES:-} --test seeded_demo -- --test-threads 2 >>$L 2>&1; then echo "demo_passes_without_change=yes" >>$L; else echo "demo_passes_without_change=NO" >>$L; fi
   if ! git apply $D/patch.diff >>$L 2>&1; then echo "patch_applies=NO" >>$L; continue; fi
   echo "patch_applies=yes" >>$L
-  if cargo test -p rustic_core --offline --test seeded_demo -- --test-threads 2 >>$L 2>&1; then echo "demo_fails_with_change=NO" >>$L; else echo "demo_fails_with_change=yes" >>$L; fi
+  if cargo test -p rustic_core --offline ${SEED_FEATURES:-} --test seeded_demo -- --test-threads 2 >>$L 2>&1; then echo "demo_fails_with_change=NO" >>$L; else echo "demo_fails_with_change=yes" >>$L; fi
   rm -f crates/core/tests/seeded_demo.rs
   cargo test --workspace --offline --no-fail-fast -- --test-threads 4 > $D/suite.log 2>&1
   fails=$(grep -E "^test .* \.\.\. FAILED" $D/suite.log | sed 's/ \.\.\. FAILED//' | sort -u | tr '\n' ';')
